@@ -95,7 +95,7 @@ def c05_models(I, st, caller, func, args, argtys, dest_ty):
 
 def native_decode(rows, profile="dev"):
     """rows: [(decoder name, hex bytes)] -> result lines (one process per row: an abort must not hide the others)"""
-    cdir = os.path.join(core.VERIF, "replay", "stm")
+    cdir = os.path.join(core.REPLAY_CRATES, "stm")
     import shutil
     shutil.copyfile(os.path.join(core.REPO, "Cargo.lock"), os.path.join(cdir, "Cargo.lock"))
     env = dict(os.environ)
